@@ -6,8 +6,7 @@
 (* specified is                                                            *)
 (*   - the header lines with the node / edge (change) counts,              *)
 (*   - the exact text of every line,                                       *)
-(*   - that the incoming edges of one destination are listed together, in  *)
-(*     the order of the incoming-edge list,                                *)
+(*   - one line per edge (the order of the lines is not specified),         *)
 (*   - in a diff: removals before additions and changes.                   *)
 (* A text is judged by splitting it at line breaks (TextOK / DiffTextOK),  *)
 (* never by enumerating permutations, so graphs of any size are decided.   *)
@@ -73,8 +72,9 @@ Grouped(block, groups) ==
 
 \* ---- GRAPH.PRINT
 NodeGroups(g) == [i \in 1..Len(g.nodes) |-> <<ExactLine(NodeText(g.nodes[i]))>>]
-EdgeGroups(g, sign) == [i \in 1..Len(g.edges) |->
-                          [j \in 1..Len(g.edges[i]["in"]) |-> EdgeLine(sign, g.edges[i].d, g.edges[i]["in"][j])]]
+\* one group per edge: the order of the incoming-edge list is not part of the graph value
+AllEdges(g) == FlatSeq([i \in 1..Len(g.edges) |-> [j \in 1..Len(g.edges[i]["in"]) |-> [d |-> g.edges[i].d, e |-> g.edges[i]["in"][j]]]])
+EdgeGroups(g, sign) == [i \in 1..Len(AllEdges(g)) |-> <<EdgeLine(sign, AllEdges(g)[i].d, AllEdges(g)[i].e)>>]
 TextOK(str, g) ==
   LET ls == Lines(str)
       n  == Len(g.nodes)
@@ -96,22 +96,18 @@ AddedOrChangedNodes(a, b) ==
 NodeDiffLine(a, n) ==
   IF ~HasNode(a, n.id) THEN ExactLine("+" \o NodeText(n))
   ELSE ExactLine("~N[ID: " \o ToString(n.id) \o ", " \o ToString(StateOf(a, n.id)) \o " <= STATE => " \o ToString(n.st) \o "]")
-\* edges of `a` that `b` does not have, by destination, in incoming-list order
+\* edges of `a` that `b` does not have (one group per edge)
 RemovedEdgeGroups(a, b) ==
-  [i \in 1..Len(a.edges) |->
-     LET d == a.edges[i].d
-         gone == SelectSeq(a.edges[i]["in"], LAMBDA e : ~HasEdge(b, e.o, d))
-     IN [j \in 1..Len(gone) |-> EdgeLine("-", d, gone[j])]]
+  LET gone == SelectSeq(AllEdges(a), LAMBDA x : ~HasEdge(b, x.e.o, x.d))
+  IN [j \in 1..Len(gone) |-> <<EdgeLine("-", gone[j].d, gone[j].e)>>]
 ChangeLine(a, d, e) ==      \* edge e of b into d, present in a with another weight
   LET lw == WeightOf(a, e.o, d) IN
   IF ShortPrintable(lw) /\ ShortPrintable(e.w)
   THEN ExactLine("~E[" \o ToString(d) \o " <= [ONID: " \o ToString(e.o) \o ", " \o ShortFloat(lw) \o " <= WEIGHT => " \o ShortFloat(e.w) \o "]]")
   ELSE PrefixLine("~E[" \o ToString(d) \o " <= [ONID: " \o ToString(e.o) \o ", ")
 AddedEdgeGroups(a, b) ==
-  [i \in 1..Len(b.edges) |->
-     LET d == b.edges[i].d
-         ch == SelectSeq(b.edges[i]["in"], LAMBDA e : ~HasEdge(a, e.o, d) \/ FNe(WeightOf(a, e.o, d), e.w))
-     IN [j \in 1..Len(ch) |-> IF HasEdge(a, ch[j].o, d) THEN ChangeLine(a, d, ch[j]) ELSE EdgeLine("+", d, ch[j])]]
+  LET ch == SelectSeq(AllEdges(b), LAMBDA x : ~HasEdge(a, x.e.o, x.d) \/ FNe(WeightOf(a, x.e.o, x.d), x.e.w))
+  IN [j \in 1..Len(ch) |-> <<IF HasEdge(a, ch[j].e.o, ch[j].d) THEN ChangeLine(a, ch[j].d, ch[j].e) ELSE EdgeLine("+", ch[j].d, ch[j].e)>>]
 GroupsLen(gs) == SumSeq([i \in 1..Len(gs) |-> Len(gs[i])])
 DiffTextOK(str, a, b) ==
   LET ls  == Lines(str)
